@@ -58,8 +58,9 @@ def gen(rng):
                 if 0 < off < sz:
                     inter = True
             elif kind < 0.8:
-                ops.append("s %d %d 2" % (h, -rng.randint(0, min(sz, 50)) if sz > 60 else 0))
-                inter = inter or sz > 60
+                # SEEK_END with offset >= 0 only: the generator does not know the exact size (it may have been truncated) and
+                # seeking before the start of a file is outside the API contract (asserts)
+                ops.append("s %d %d 2" % (h, rng.choice([0, 0, 7])))
             else:
                 ops.append("s %d %d 1" % (h, rng.randint(0, 20)))
         elif r < 0.80:
@@ -153,7 +154,7 @@ def run_one(ctx, fl, ops):
 
 
 def run(ctx):
-    n = ctx.size(150, 10000)
+    n = ctx.size(200, 10000)
     scripts = []
     directed = ["o 0 /scratch/v/x", "w 0 100 0", "s 0 20 0", "w 0 30 0", "s 0 10 0", "w 0 5 1", "s 0 0 0", "r 0 1000", "c 0", "o 1 /scratch/v/x", "u 1", "c 1"]
     scripts.append((directed, True))
